@@ -160,6 +160,79 @@ def exhaustive_strings(maxlen, alpha):
             yield ''.join(t)
 
 
+
+# ------------------------------------------------------------------ call sites (t2incons uses the Fortran readers)
+
+
+def eval_incon_case(ctx, case):
+    """reads case['text'] with the real t2incon and compares with case['want'] (Fortran meaning); returns a violation or None"""
+    import contextlib, io, os
+    import t2incons
+    want = [(n, float(p), [float(x) for x in v]) for n, p, v in case['want']]
+    path = os.path.join(str(ctx.tmp), 'c16_case.incon')
+    with open(path, 'w') as f:
+        f.write(case['text'] + '\n')
+    try:
+        with contextlib.redirect_stdout(io.StringIO()):
+            inc = t2incons.t2incon(path)
+        got = [(b.block, b.porosity, list(b.variable)) for b in inc._blocklist]
+        timing = inc.timing
+    except Exception as e:
+        return dict(key='incon-callsite-raises', what='t2incon raises %s on a Fortran-written file' % type(e).__name__, case=case)
+    finally:
+        os.remove(path)
+    def same(a, b):
+        if a is None or b is None: return a is b
+        return (a == b) or (isinstance(a, float) and isinstance(b, float) and math.isnan(a) and math.isnan(b))
+    ok = len(got) == len(want)
+    if ok:
+        for (n1, p1, v1), (n2, p2, v2) in zip(got, want):
+            if not (same(p1, p2) and len(v1) == len(v2) and all(same(a, b) for a, b in zip(v1, v2))):
+                ok = False
+    if ok and not (timing and timing.get('kcyc') == 12 and timing.get('sumtim') == 0.31536e8 and timing.get('tstart') == 0.0):
+        ok = False
+    if not ok:
+        return dict(key='incon-callsite', what='t2incon reads a Fortran-written initial-conditions file with other values than Fortran would (got %r timing %r)' % (got, timing), case=case)
+    return None
+
+def callsite_incon(ctx, res, rng, n_files):
+    """An INCON/SAVE file as a Fortran simulator prints it (D exponents, letter-less 3-digit exponents,
+    blank instead of '+', overflow asterisks) must be read with the Fortran meaning by t2incon."""
+    import importlib, contextlib, io, os
+    import t2incons
+    importlib.reload(t2incons)
+    fac = res.facet('callsite_incon')
+    for k in range(n_files):
+        nblk = rng.randint(1, 4)
+        want, lines = [], ['INCON -- INITIAL CONDITIONS FOR %5d ELEMENTS AT TIME  0.100000E+10' % nblk]
+        for b in range(nblk):
+            name = 'ab%3d' % (b + 1)
+            por_txt, por, _ = render_real(rng)
+            por_txt = por_txt.strip()
+            if len(por_txt) > 15 or ' ' in por_txt:
+                por_txt, por = '0.25000000D+00', 0.25
+            star = rng.random() < 0.15
+            if star: por_txt, por = '*' * 15, math.nan
+            lines.append('%5s%5s%5s%15s' % (name, '', '', por_txt))
+            vals, txts = [], []
+            for j in range(rng.randint(1, 4)):
+                t, x, _ = render_real(rng)
+                t = t.strip().replace(' ', '')
+                if len(t) > 20: t, x = '0.1013D+06', 101300.0
+                vals.append(x); txts.append(t.rjust(20))
+            lines.append(''.join(txts))
+            want.append((name, por, vals))
+        lines.append('+++')
+        lines.append('%5d%5d%5d%15s%15s' % (12, 3, 1, '0.000000000D+00', ' 0.31536000+008'))
+        case = {'fn': 'incon', 'text': '\n'.join(lines), 'want': [[n, repr(p), [repr(x) for x in v]] for n, p, v in want]}
+        fac['cases'] += 1
+        res.evaluations += 1
+        res.distinct.add('incon:' + case['text'])
+        v = eval_incon_case(ctx, case)
+        if v:
+            res.violations.append(v)
+    res.sample({'incon_file': lines})
+
 # ------------------------------------------------------------------ run
 
 def bad_float_char(c):
@@ -298,6 +371,7 @@ def run(ctx, scale=1.0):
     else:
         for k in range(0, len(strings), 20011):
             res.sample({'s': strings[k][0], 'fortran_float': real[k][0], 'fortran_int': real[k][1]})
+    callsite_incon(ctx, res, ctx.rng('callsite_incon'), int(ctx.n(150, 3000) * scale))
     res.exhaustive = False
     res.hyp['FReal.WF (rendered reals: hypothesis of reads_fortran_reals)'] = [n_render, n_render]
     return res
@@ -323,6 +397,9 @@ def search(ctx, seconds, res):
 def replay(ctx, payload):
     import fixed_format_file as fff
     c = payload.get('case') or {}
+    if c.get('fn') == 'incon':
+        v = eval_incon_case(ctx, c)
+        return bool(v), (v['what'] if v else 't2incon reads the file with the Fortran meaning') + '\nfile:\n' + c['text']
     if 's' not in c:
         return False, 'replay file names what no longer checks: %s' % payload.get('broken')
     s = c['s']
